@@ -35,6 +35,14 @@ type FuncV struct {
 	Ty   types.Type
 }
 
+// ParamFuncV: a function-typed parameter of the function under verification (calls go through its callback contract).
+type ParamFuncV struct {
+	Name string
+	Ty   types.Type
+}
+
+func (s ParamFuncV) GoType() types.Type { return s.Ty }
+
 type rootKind int
 
 const (
